@@ -143,7 +143,10 @@ def gen_direct(rng):
     m = int(rng.integers(1, 7))
     ns = int(rng.integers(1, 5))
     kind = rng.random()
-    if kind < 0.7:
+    if kind < 0.12:
+        # very slow processes (a fine time unit): rates far below 1e-8 are still positive rates, the event must fire
+        rates = [float(np.exp(rng.uniform(np.log(1e-13), np.log(1e-9)))) for _ in range(m)]
+    elif kind < 0.7:
         rates = [float(np.exp(rng.uniform(np.log(1e-3), np.log(1e3)))) for _ in range(m)]
     elif kind < 0.85:
         rates = [float(rng.integers(1, 40)) for _ in range(m)]
